@@ -19,6 +19,8 @@ import (
 type microJob struct {
 	Spec    nsqd.MicroSpec `json:"spec"`
 	Brute   bool           `json:"brute"`
+	Delay   int            `json:"delay"` // > 0: E2 delay-bounded exploration with this bound instead of E1
+	AllPts  bool           `json:"all_pts"`
 	MaxRuns int            `json:"max_runs"`
 	Secs    int            `json:"secs"`
 }
@@ -47,7 +49,10 @@ func registerHandlers() {
 			opt.Deadline = time.Now().Add(time.Duration(j.Secs) * time.Second)
 		}
 		var res vx.Res
-		if j.Brute {
+		if j.Delay > 0 {
+			opt.AllPts = j.AllPts
+			res = vx.Delay(body, j.Delay, opt)
+		} else if j.Brute {
 			res = vx.Interleave(body, opt)
 		} else {
 			res = vx.DPOR(body, opt)
@@ -164,6 +169,10 @@ func main() {
 			res = vx.DPOR(bd, vx.Opt{MaxRuns: 2000000, AllPts: true})
 		case *mode == "dpor-nosleep":
 			res = vx.DPOR(bd, vx.Opt{MaxRuns: 2000000, NoSleep: true})
+		case *mode == "delay1":
+			res = vx.Delay(bd, 1, vx.Opt{MaxRuns: 2000000, AllPts: true})
+		case *mode == "delay2":
+			res = vx.Delay(bd, 2, vx.Opt{MaxRuns: 2000000})
 		case *mode == "sleep" && !*brute:
 			res = vx.Interleave(bd, vx.Opt{MaxRuns: 2000000})
 		default:
@@ -204,11 +213,22 @@ var checks = map[string]func(tier string) int{}
 // keeping only the violations whose clause belongs to the property (clauses start with the
 // ids of the properties they belong to; runtime failures belong to the running check).
 func runMicros(rep *vx.Report, specs []nsqd.MicroSpec, secsEach int, brute bool) {
+	runMicrosX(rep, specs, secsEach, brute, 0, false)
+}
+
+// runMicrosDelay explores the scenarios with the E2 delay-bounded explorer: the default
+// schedule plus every placement of at most `bound` deviations (at every decision point if
+// allPts, else at the points whose object is shared).
+func runMicrosDelay(rep *vx.Report, specs []nsqd.MicroSpec, secsEach int, bound int, allPts bool) {
+	runMicrosX(rep, specs, secsEach, false, bound, allPts)
+}
+
+func runMicrosX(rep *vx.Report, specs []nsqd.MicroSpec, secsEach int, brute bool, delay int, allPts bool) {
 	var args []interface{}
 	for _, s := range specs {
 		// secsEach used to be a wall-clock budget; it now scales an execution budget
 		// (about 400 executions per "second"), with 6x the time as a safety net
-		args = append(args, microJob{Spec: s, MaxRuns: secsEach * 400, Secs: secsEach * 6, Brute: brute})
+		args = append(args, microJob{Spec: s, MaxRuns: secsEach * 400, Secs: secsEach * 6, Brute: brute, Delay: delay, AllPts: allPts})
 	}
 	totalRuns, blocked, maxPts, capped, other := 0, 0, 0, 0, 0
 	vx.Par("micro", args, func(i int, res json.RawMessage, errStr, crash string) {
@@ -266,6 +286,10 @@ func runMicros(rep *vx.Report, specs []nsqd.MicroSpec, secsEach int, brute bool)
 			v += old
 		}
 		rep.Extra[k] = v
+	}
+	if delay > 0 {
+		add(fmt.Sprintf("delay_bounded_d%d_scenarios", delay), len(specs))
+		add(fmt.Sprintf("delay_bounded_d%d_schedules", delay), totalRuns)
 	}
 	add("scenarios", len(specs))
 	add("schedules_executed", totalRuns)
